@@ -701,32 +701,52 @@ def run(ctx: Ctx):
         nameset = [1, 3, 4, 2, 5, 6][ctx.seed % 6]
         scopes = [dict(NameSet=nameset, GeneSet=1 + ctx.seed % 2, FloatSet=1, MaxCoord=2, MaxRows=2, ZeroWidth="FALSE",
                        name=f"<=2 rows, name set {nameset}, coordinates 0..2 (start < end), 2 labels, 2 floats")]
-    all_records = []
     os.environ["C08_TMP"] = ctx.scratch.sub("io")      # inherited by the forked workers (see _workspace)
+    samples = []
+    chunk = 20                                          # cases per TLC run: bounds the dump and the records held in memory
     for k, sc in enumerate(scopes):
         consts = {c: sc[c] for c in ("NameSet", "GeneSet", "FloatSet", "MaxCoord", "MaxRows", "ZeroWidth")}
-        consts["CaseIds"] = "{" + ", ".join(str(k) for k in range(1, N_CASES + 1)) + "}"
-        cfg = ctx.cfg(f"mc-{k}", spec="Spec", invariants=["DesignOK"], constants=consts)
-        # coverage=False: TLC's -coverage 1 instrumentation makes this specification ~1000x slower (measured: 3.4k states
-        # 3 s without, > 900 s with); vacuity is guarded by REQUIRE_CLAUSES and by the per-case state counts instead
-        r, states = ctx.mc("MC_Formats", cfg, timeout=3000, coverage=False)
-        inputs = _inputs_from_states(states)
-        if len(inputs) * 2 != r.distinct:
-            raise MachineryError(f"dump replay: {len(inputs)} ret states parsed, TLC reports {r.distinct} states")
-        del states
-        recs = ctx.execute(execute, inputs)
-        all_records += recs
-        ctx.notes[f"scope{k}"] = {"scope": sc["name"], "cases": N_CASES, "tlc_states": r.distinct, "replayed": len(recs)}
+        n_states = n_replayed = 0
+        for lo in range(1, N_CASES + 1, chunk):
+            ids = list(range(lo, min(lo + chunk, N_CASES + 1)))
+            consts["CaseIds"] = "{" + ", ".join(map(str, ids)) + "}"
+            cfg = ctx.cfg(f"mc-{k}-{lo}", spec="Spec", invariants=["DesignOK"], constants=consts)
+            # coverage=False: TLC's -coverage 1 instrumentation makes this specification ~1000x slower (measured: 3.4k
+            # states 3 s without, > 900 s with); vacuity is guarded by REQUIRE_CLAUSES and the per-case state counts
+            r, states = ctx.mc("MC_Formats", cfg, timeout=3000, coverage=False)
+            inputs = _inputs_from_states(states)
+            if len(inputs) * 2 != r.distinct:
+                raise MachineryError(f"dump replay: {len(inputs)} ret states parsed, TLC reports {r.distinct} states")
+            seen_cases = {tuple(st["cs"]) for st in states if st["ph"] == "ret"}
+            if len(seen_cases) != len(ids):
+                raise MachineryError(f"vacuity guard: cases {ids} produced states for only {len(seen_cases)} of them")
+            del states
+            recs = ctx.execute(execute, inputs)
+            del inputs
+            for rec in recs:
+                _count(ctx, rec)
+            if not samples:
+                samples = [recs[0], recs[len(recs) // 2]]
+            ctx.validate(TRACE, recs, batch=4000, timeout=3000)
+            n_states += r.distinct
+            n_replayed += len(recs)
+            ctx.notes.setdefault("cases_enumerated", set()).update("/".join(c) for c in seen_cases)
+            del recs
+        ctx.notes[f"scope{k}"] = {"scope": sc["name"], "cases": N_CASES, "tlc_states": n_states, "replayed": n_replayed}
+    ctx.notes["cases_enumerated"] = sorted(ctx.notes["cases_enumerated"])
     ctx.exhaustive = "; ".join(sc["name"] for sc in scopes) + f" x {N_CASES} (operation, layout, reader) cases -- every dumped transition replayed"
     # ---- direction 2
     mult = 12 if thorough else 1
-    rnd = ctx.execute(execute, random_inputs(ctx, 150 * mult, 450 * mult, 500 * mult, 250 * mult, 120 * mult))
-    all_records += rnd
-    for rec in all_records:
-        _count(ctx, rec)
-    for rec in (all_records[0], all_records[len(all_records) // 2], rnd[0], rnd[len(rnd) // 2], rnd[-1]):
+    for part in range(mult):
+        rnd = ctx.execute(execute, random_inputs(ctx, 150, 450, 500, 250, 120))
+        for rec in rnd:
+            _count(ctx, rec)
+        if part == 0:
+            samples += [rnd[0], rnd[len(rnd) // 2], rnd[-1]]
+        ctx.validate(TRACE, rnd, batch=4000, timeout=3000)
+        del rnd
+    for rec in samples:
         ctx.sample(rec)
-    ctx.validate(TRACE, all_records, batch=4000, timeout=3000)
     ctx.trusted_base = ["TLC 1.8 evaluation of spec/Formats.tla, spec/Text.tla", "text <-> character codes, file tokenisation "
                         "(split on \\n and \\t) in harness/props/c08.py", "float <-> shortest repr() digits (Python repr/float)",
                         "30-bit blake2b identifiers of file bytes (equality only)", "pandas DataFrame construction / cell "
